@@ -295,13 +295,20 @@ def r3_no_state_change_before_gate(ctx, handle, gate_nodes):
         ctx.ok(handle, 'no state-changing sink among %d functions reachable '
                'before the gate (baseline install in Evolver.__init__ '
                'excluded)' % len(reach))
-    # the excluded block really is the baseline install
+    # the excluded block really is the baseline install (directly, or in a
+    # private helper called under the guard)
+    from ..util import helper_contains
     b = 0
     for n in ig.nodes:
         for c in n.calls():
-            if id(c) in base_calls and call_name(c) in (
-                    'execute', '_save_project_sig'):
-                b += 1
+            if id(c) not in base_calls:
+                continue
+            is_sink = call_name(c) in ('execute', '_save_project_sig')
+            via_helper = helper_contains(
+                ctx, init, c, lambda a: isinstance(a, ast.Call) and
+                call_name(a) in ('execute', '_save_project_sig'))
+            if is_sink or via_helper:
+                b += 2 if via_helper and not is_sink else 1
                 ctx.ok(init, 'baseline install call is under '
                        '"latest_version is None"', c)
     ctx.floor('baseline-install sinks under the guard', b, 2)
